@@ -34,7 +34,7 @@ pub fn generate(stream: &str, seed: u64, n: usize, emit: &mut dyn FnMut(String))
 		"de-alloc" => de::generate_alloc(seed, n, emit),
 		"ocfw" | "ocfw-sink" | "ocfw-big" => ocf::generate_w(stream, seed, n, emit),
 		"ocfx" => ocf::generate_x(seed, n, emit),
-		"ocfr" | "ocfr-null" | "ocfr-big" | "ocfr-damage" | "ocfr-cap" | "ocfd" => ocf::generate_r(stream, seed, n, emit),
+		"ocfr" | "ocfr-null" | "ocfr-big" | "ocfr-damage" | "ocfr-cap" | "ocfr-skip" | "ocfr-skipd" | "ocfd" => ocf::generate_r(stream, seed, n, emit),
 		s if s.starts_with("de") => de::generate(stream, seed, n, emit),
 		_ => panic!("unknown stream {stream}"),
 	}
